@@ -68,6 +68,9 @@ type zzCfg struct {
 	ackInterval time.Duration
 	// bursts: a queue with more than one message may be handed over in one go
 	bursts bool
+	// bobPays: Bob originates payments of his own in the arms that restart or
+	// crash him as well (payer-side durability of the attempt result)
+	bobPays bool
 }
 
 type zzPay struct {
@@ -80,6 +83,11 @@ type zzPay struct {
 	hash      lntypes.Hash
 	attemptID uint64
 	hasInv    bool
+	// sendOK: SendHTLC accepted the payment (its circuit was committed);
+	// sentBoot: the sender's boot count at that moment
+	sendOK   bool
+	sentBoot int
+	stranded bool
 
 	// results (guarded by sim.mu)
 	done           bool
@@ -244,6 +252,8 @@ func zzDrawCfg(r *simcore.Run) zzCfg {
 	// appended last: burst deliveries (several queued messages handed to a
 	// link before it has handled the first)
 	c.bursts = t.CfgDraw(2) == 1
+	// appended last: Bob's own payments in the restart / crash arms
+	c.bobPays = t.CfgDraw(2) == 1
 	return c
 }
 
@@ -904,12 +914,13 @@ func (s *zzSim) newPayment() {
 	default:
 		p.route = [][]int{{zzB, zzA}, {zzB, zzC}}[r.Draw(2)]
 	}
-	if p.sender() == zzB && (s.cfg.arm == "restart" || s.cfg.arm == "crash") {
+	if p.sender() == zzB && (s.cfg.arm == "restart" || s.cfg.arm == "crash") && !s.cfg.bobPays {
 		// A payment whose SENDER restarts while its HTLC sits only in
 		// the outgoing link's in-memory mailbox keeps a pending
 		// circuit and never gets a result: the router's business, not
-		// the forwarder's (see report). Bob only pays in the arms that
-		// never restart him.
+		// the forwarder's (see report). In half of the runs Bob only
+		// pays in the arms that never restart him; in the other half
+		// that one shape is recognised at wind-down (zzStranded).
 		p.route = []int{zzA, zzB, zzC}
 	}
 	switch v := r.Draw(24); {
@@ -1051,6 +1062,7 @@ func (s *zzSim) sendPayment(p *zzPay) {
 		r.Count("pay_rejected_at_send")
 		return
 	}
+	p.sendOK, p.sentBoot = true, sender.boots
 	s.subscribe(p)
 }
 
@@ -1060,7 +1072,14 @@ func (s *zzSim) subscribe(p *zzPay) {
 	ch, err := sender.sw.GetAttemptResult(p.attemptID, p.hash, newMockDeobfuscator())
 	if err != nil {
 		s.mu.Lock()
-		if errors.Is(err, ErrPaymentIDNotFound) {
+		if errors.Is(err, ErrPaymentIDNotFound) && p.sendOK {
+			// SendHTLC had accepted the payment, so its circuit was
+			// durable; a circuit of a local payment is deleted only
+			// after the attempt's result was stored. A switch that
+			// knows neither has lost the result of an HTLC it may have
+			// been debited for (the router would pay again).
+			s.parkViolation("attempt-result-lost", "%s: SendHTLC accepted the payment (circuit committed), but after %d restart(s) of the sender GetAttemptResult answers %v: neither a circuit nor a stored result is left for the attempt", p, sender.boots-p.sentBoot, err)
+		} else if errors.Is(err, ErrPaymentIDNotFound) {
 			// the switch knows nothing about it: it never left
 			p.done, p.success, p.resErr = true, false, "never left the sender: "+err.Error()
 		} else {
